@@ -195,6 +195,9 @@ func regReplay(s *Summary, raw json.RawMessage) {
 		// variant 3: every group prefix ends in a path variable ("/a" -> "/a/{v<k>}"): a plain route inside such a group is a
 		// dynamic route, it is reached with any value and runs the same chain
 		x := &regExec{r: rux.New(), log: &log, useCtl: useCtl, style: variant, varPrefix: variant == 3}
+		if variant == 3 { // (these routes are dynamic: on a caching router, and every request is sent twice - miss, then hit)
+			x.r = newRouter(cachingOpts(8)...)
+		}
 		if variant == 2 {
 			x.offs = map[int]int{}
 			x.shared = []rux.HandlerFunc{}
@@ -273,6 +276,14 @@ func regReplay(s *Summary, raw json.RawMessage) {
 			}
 			if !reflect.DeepEqual(log, want) {
 				s.mismatch(desc("chain", fmt.Sprintf("program %v: GET %s ran %v, spec %v (events [in|out, statement, index])", progText(c.Prog), wantPath, log, want)), c)
+				continue
+			}
+			if variant == 3 {
+				log = log[:0]
+				x.r.ServeHTTP(&recWriter{hdr: http.Header{}}, &http.Request{Method: "GET", URL: &url.URL{Path: wantPath}, Header: http.Header{}, Proto: "HTTP/1.1"})
+				if !reflect.DeepEqual(log, want) {
+					s.mismatch(desc("chain", fmt.Sprintf("program %v: GET %s requested again (route cache) ran %v, spec %v", progText(c.Prog), wantPath, log, want)), c)
+				}
 			}
 		}
 	}
